@@ -102,10 +102,13 @@ pub struct Case {
 	pub ch: Choices,
 	pub plan: Plan,
 	pub trailing: Vec<u8>,
+	/// size / shape extension applied to every class of the stream (gen::apply_big); 0 = none
+	#[serde(default)]
+	pub big: u32,
 }
 
 fn strategy() -> impl Strategy<Value = Case> {
-	(proptest::collection::vec(class_stream(), 1..4), choices(), plan_strategy(), proptest::collection::vec(any::<u8>(), 0..6)).prop_map(|(streams, ch, plan, trailing)| Case { streams, ch, plan, trailing })
+	(proptest::collection::vec(class_stream(), 1..4), choices(), plan_strategy(), proptest::collection::vec(any::<u8>(), 0..6), crate::classfile::gen::big_choice()).prop_map(|(streams, ch, plan, trailing, big)| Case { streams, ch, plan, trailing, big })
 }
 
 // ---------------------------------------------------------------------------------------------
@@ -298,7 +301,11 @@ fn check(case: &Case, obs: &mut Obs) -> PropResult {
 	// the stream of class files
 	let mut files: Vec<Vec<u8>> = Vec::new();
 	for s in &case.streams {
-		let model = class_from_stream(s, 4, 25);
+		let mut model = class_from_stream(s, 4, 25);
+		// element value nesting stays within what the reader accepts (256, see C01-nesting-limit-256)
+		for l in crate::classfile::gen::apply_big(&mut model, case.big, 256) {
+			obs.label(l);
+		}
 		match encode(&model, &case.ch) {
 			Ok(e) => files.push(e.bytes),
 			Err(_) => obs.label("class_not_encodable"),
